@@ -57,7 +57,7 @@ impl FsWatcher {
             let full = self.root.join(&p);
             let meta = std::fs::symlink_metadata(&full)
                 .ok()
-                .filter(|m| m.is_file())
+                .filter(|m| m.is_file() || m.file_type().is_symlink())
                 .map(|m| (m.ino(), m.size(), m.mtime(), m.mtime_nsec()));
             if self.last_meta.get(&p) == Some(&meta) {
                 continue;
@@ -66,7 +66,10 @@ impl FsWatcher {
             let file = match meta {
                 None => None,
                 Some((ino, _, _, _)) => {
-                    let b = std::fs::read(&full).unwrap_or_default();
+                    let b = match std::fs::read_link(&full) {
+                        Ok(dest) => symlink_bytes(&dest.to_string_lossy()),
+                        Err(_) => std::fs::read(&full).unwrap_or_default(),
+                    };
                     let (d, n) = FsWatcher::digest_of(&b);
                     if let Some((od, on)) = self.ino_digest.get(&ino) {
                         if (od, on) != (&d, &n) {
@@ -96,10 +99,12 @@ impl Observer for FsWatcher {
 }
 
 const SIZES: [usize; 6] = [0, 1, 4095, 4096, 65537, 1 << 20];
-const BEHAVIOURS: [&str; 9] = [
-    "stdout", "file", "none", "both", "direct", "rm3", "fail-partial", "killself", "append",
+const BEHAVIOURS: [&str; 11] = [
+    "stdout", "file", "none", "both", "direct", "rm3", "fail-partial", "killself", "append", "link",
+    "linkboth",
 ];
-const CELLS: u64 = 9 * 6 * 3;
+const NB: usize = BEHAVIOURS.len();
+const CELLS: u64 = (NB * 6 * 3) as u64;
 const PRIORS: [&str; 3] = ["absent", "user", "generated"];
 
 fn behaviour_rule(b: &str, size: usize, version: u32, dep: bool) -> Rule {
@@ -116,6 +121,8 @@ fn behaviour_rule(b: &str, size: usize, version: u32, dep: bool) -> Rule {
         "direct" => stmts.push(Stmt::Out { mode: OutMode::Direct, pad }),
         "rm3" => stmts.push(Stmt::Out { mode: OutMode::Rm3, pad }),
         "append" => stmts.push(Stmt::Out { mode: OutMode::Append, pad }),
+        "link" => stmts.push(Stmt::Out { mode: OutMode::Link, pad }),
+        "linkboth" => stmts.push(Stmt::Out { mode: OutMode::LinkBoth, pad: pad.max(1) }),
         "fail-partial" => {
             stmts.push(Stmt::Out { mode: if size % 2 == 0 { OutMode::Stdout } else { OutMode::File }, pad });
             stmts.push(Stmt::FailIf { flag: "on".into(), code: 5, partial: true, direct: false });
@@ -138,7 +145,7 @@ impl Property for C04 {
     }
     fn runs(&self, tier: Tier) -> u64 {
         match tier {
-            // the cross product 9 behaviours x 6 sizes x 3 prior states = 162 cells;
+            // the cross product 11 behaviours x 6 sizes x 3 prior states = 198 cells;
             // thorough walks every cell several times with different schedules and
             // kill points, quick samples each cell at least once
             Tier::Quick => 12 * CELLS,
@@ -147,9 +154,9 @@ impl Property for C04 {
     }
     fn rule(&self) -> &'static str {
         "cells of {stdout,$3,none,both,writes $1,creates+deletes $3,exit!=0 after partial output,killed \
-         by own signal,appends to $3} x sizes {0,1,4095,4096,65537,1MiB} x prior state {absent,user file,\
-         previously generated}; cell = run_index mod 162 (every cell enumerated); odd rounds additionally \
-         SIGKILL the script at a drawn yield (run_index/162 walks the yields); every third round a stale \
+         by own signal,appends to $3,$3 is a dangling symlink,stdout and a dangling-symlink $3} x sizes {0,1,4095,4096,65537,1MiB} x prior state {absent,user file,\
+         previously generated}; cell = run_index mod 198 (every cell enumerated); odd rounds additionally \
+         SIGKILL the script at a drawn yield (run_index/198 walks the yields); every third round a stale \
          <target>.redo.tmp (as a killed earlier run leaves it) exists beforehand; per-step watcher records every state \
          of the target a reader can see; oracle: final bytes and status per cell, previous content kept \
          on any failure, no *.redo.tmp left, every observed state is the previous complete content, \
@@ -160,9 +167,9 @@ impl Property for C04 {
     fn generate(&self, rng: &mut Rng, seed: u64, _tier: Tier, index: u64) -> Case {
         let cell = (index % CELLS) as usize;
         let round = index / CELLS;
-        let b = BEHAVIOURS[cell % 9];
-        let size = SIZES[(cell / 9) % 6];
-        let prior = PRIORS[cell / 54];
+        let b = BEHAVIOURS[cell % NB];
+        let size = SIZES[(cell / NB) % 6];
+        let prior = PRIORS[cell / (NB * 6)];
         let dep = rng.chance(1, 2);
         let mut sc = Scenario {
             family: "c04".into(),
@@ -321,7 +328,7 @@ impl Property for C04 {
         }
         if !killed && prior != "user" {
             let want_code = match b {
-                "both" => Some(207),
+                "both" | "linkboth" => Some(207),
                 "direct" => Some(206),
                 _ => None,
             };
@@ -345,7 +352,7 @@ impl Property for C04 {
                     detail: format!(
                         "{} target after the command: {}; expected: {}",
                         desc,
-                        after.as_ref().map(|b| format!("{} bytes {}", b.len(), FsWatcher::digest_of(b).0)).unwrap_or("absent".into()),
+                        after.as_ref().map(|b| format!("{} bytes {}{}", b.len(), FsWatcher::digest_of(b).0, if b.starts_with(b"@symlink") { format!(" ({})", String::from_utf8_lossy(b).trim_end()) } else { String::new() })).unwrap_or("absent".into()),
                         wf.as_ref().map(|b| format!("{} bytes {}", b.len(), FsWatcher::digest_of(b).0)).unwrap_or("absent".into()),
                     ),
                 });
